@@ -48,6 +48,10 @@ def run_driver(lines):
     res = {}
     cur = None
     for ln in p.stdout.split("\n"):
+        if ln.startswith("G\t"):
+            f = ln.split("\t")
+            res[f[1]] = f[2]
+            continue
         if ln.startswith("BEGIN\t"):
             cur = ln.split("\t", 1)[1]
             res[cur] = []
